@@ -198,9 +198,12 @@ Definition expected_raw (v : value) : cell :=
   | VStr s => OStr s
   end.
 
-(* a string cell in the reading: not empty, and neither int() nor float() accepts it *)
+(* a string cell in the reading: not empty, ASCII, and neither int() nor float() accepts it.  (int()
+   and float() also accept non-ASCII decimal digits and white space, which the character model of
+   py_int / py_float does not know: strings with bytes >= 128 are outside the reading.) *)
+Definition is_ascii_str (s : string) : bool := forallb (fun c => code c <? 128) (s2l s).
 Definition nonnumeric (s : string) : bool :=
-  negb (String.eqb s "") &&
+  negb (String.eqb s "") && is_ascii_str s &&
   match py_int (s2l s), py_float (s2l s) with None, None => true | _, _ => false end.
 (* cells the csv layer transports unchanged: no NUL, no line break (files are read with universal
    newlines) *)
